@@ -87,6 +87,10 @@ CHECKS.update({
          "stop-point injection: stop()/shutdown() after a drawn reactor event of each situation surveyed in a stop-free baseline run (also from inside the processor and from the start errback), then restart; monitors on processor calls, client writes, delayed calls and the start/shutdown Deferreds",
          "After stop() returned: no processor call, no Fetch/ListOffsets/OffsetFetch/OffsetCommit frame written until the restart, no delayed call bound to the consumer; stop() returns normally; the start Deferred fires exactly once with the offset (or with an earlier unrecoverable failure, never with the echo of stop's own cancellations); shutdown's Deferred fires once, no processor call begins after it was requested, committed == processed == coordinator's stored offset on success; a restarted consumer delivers again. Ten defects found here were fixed in /repo; one is listed as known.",
          "situations classified from Consumer attributes (stratification only); the C02 stream oracle stays on", "3/C13"),
+ "C08": ("client-e2e", "exploration",
+         "online monitor wrapped around the real client's metadata merge (harness-side): every metadata response, as recorded by the simulated cluster and paired by correlation id, is compared with the client's view right after it was merged, across generated histories of cluster mutations, refreshes and requests; connect hook on the simulated network for dialled addresses; wire inspection after not-leader / unknown-partition answers and failed sends; producer + consumers under finite fault sequences with bounded-recovery oracle",
+         "After each metadata response: partitions, leader (node, host, port) per partition, topic error and broker addresses of every covered topic equal the response, no stale partition entry survives, topics not in the response are unchanged, and after a full refresh that lists brokers every broker client for a missing node is gone from client.clients, its connection was asked to close (or its pending connect cancelled) within that reactor event and it never dials again; every later dial of a broker client goes to the address last advertised for its node. After a not-leader/unknown-partition answer (also behind another error in the same response list) or a failed send (also acks=0) a metadata request covering the topic is on the wire before the next request for it, which then goes where that answer says. After any generated finite sequence of leader moves, broker restarts and address changes: sends issued later succeed within max_req_attempts produce attempts, every acknowledged send is in the log, and each consumer's deliveries equal its partition log within 40 virtual seconds. One defect found here was fixed in /repo.",
+         "a response never names a leader missing from its own broker list; topics absent from a full refresh are not judged; one bootstrap address stays reachable", "3/C08"),
  "C03": ("consumer-e2e", "fault_enumeration",
          "offline checker over the recorded commit history (every OffsetCommit the coordinator received vs. the processor-completion events before it) plus crash-point enumeration: the process is killed after the k-th client write for every k (sampled above 60 writes), a fresh consumer resumes from OFFSET_COMMITTED and its first delivery is compared with the coordinator's stored offset",
          "Every committed value equals the offset of the last message whose processing had completed when the commit was issued (never behind, never ahead, never re-sent once acknowledged); last_committed_offset is an acknowledged value at every quiescent point; after a kill at any write, the fresh consumer's first delivered offset is stored+1 (the next existing offset) so that at most the un-committed tail is redelivered and nothing is skipped. One defect (processing continues after a processor failure, so a later commit covers the failed message) is listed as known.",
@@ -130,7 +134,7 @@ def main():
         "engines": [
             {"name": "pure", "path": "afkverif/props", "serves_properties": ["C15", "C18"], "kind_free_text": "direct calls of pure functions under generated inputs with reference oracles"},
             {"name": "brokerclient", "path": "afkverif/engines/bc.py", "serves_properties": ["C06", "C10"], "kind_free_text": "real _KafkaBrokerClient / KafkaBootstrapProtocol over simnet (virtual clock, in-memory transports) against a scripted raw server"},
-            {"name": "client-e2e", "path": "afkverif/engines/world.py", "serves_properties": ["C07", "C11", "C20"], "kind_free_text": "real KafkaClient stack on SimClock + simnet against simkafka (cluster model speaking the independent codec)"},
+            {"name": "client-e2e", "path": "afkverif/engines/world.py", "serves_properties": ["C07", "C08", "C11", "C20"], "kind_free_text": "real KafkaClient stack on SimClock + simnet against simkafka (cluster model speaking the independent codec)"},
             {"name": "producer-e2e", "path": "afkverif/engines/prod.py", "serves_properties": ["C01", "C09", "C19"], "kind_free_text": "real Producer on the real client stack against simkafka with seeded fault plans; unique keys/values make histories unambiguous"},
             {"name": "consumer-e2e", "path": "afkverif/engines/cons.py", "serves_properties": ["C02", "C03", "C13", "C14"], "kind_free_text": "real Consumer on the real client stack against a partition log generated as data in simkafka; processor model with sync/async/chained/failing behaviours"},
             {"name": "codec", "path": "afkverif/refproto.py", "serves_properties": ["C04", "C05", "C12"], "kind_free_text": "independent strict Kafka wire codec used as differential oracle"},
